@@ -244,6 +244,8 @@ def run(check, ctx):
     # C side: every chunking (empty pieces, in-place output) of the native mode loops gives the one-shot result
     from . import c_modes
     c_modes.mode_tables(check, ctx, ("ctr", "cfb", "ofb", "cbc", "ecb"), rule="SEG-c")
+    from . import c_ocb
+    c_ocb.ocb_tables(check, ctx, rule="SEG-c", groups=("crypt",))
     check.floor("SEG-c", 5)
     from . import c_keccak
     c_keccak.keccak_tables(check, ctx, rule="SEG-c", groups=("sponge",))
